@@ -3,7 +3,7 @@
    0 < n <= len(buffer) and n = the length the header declares, dependence on the first n bytes only, rejection of
    proper prefixes, absence of undocumented exceptions. *)
 From Coq Require Import ZArith List Bool.
-From CP Require Import Core.Bytes Core.Result Frame.LVFrame Frame.Units Frame.Entry Lemmas.UnitLemmas Lemmas.UnitInstances.
+From CP Require Import Core.Bytes Core.Result Frame.LVFrame Frame.Units Frame.Entry Frame.Ssl2 Lemmas.UnitLemmas Lemmas.UnitInstances Lemmas.Ssl2Lemmas.
 Open Scope Z_scope.
 
 Theorem C03_tls_record : frame_unit_ok parse_tls_record compose_tls_record always (lv_declared 5 tls_record_plen).
@@ -39,3 +39,19 @@ Theorem C03_entry_points : forall (hv : Type) parse compose okv declared,
      exists n, parse buf = Ok (v, n) /\ rest = skipn (Z.to_nat n) buf /\ (firstn (Z.to_nat n) buf ++ rest)%list = buf) /\
   (forall buf e, parse buf = Err e -> parse_mutable _ parse buf = Err e /\ parse_exact_size _ parse buf = Err e).
 Proof. intros hv parse compose okv declared U. exact (unit_entry_laws parse compose okv declared U). Qed.
+
+(* SSL 2.0 records (2- and 3-byte header, padding), for any message parser that sees exactly the message bytes: the consumed
+   length is the length the header declares, positive and within the buffer; the result depends on those bytes only; a
+   composed record parses back whatever follows *)
+Theorem C03_ssl2_consumed_is_declared : forall msg types buf x n,
+  ssl2_parse msg types buf = Ok (x, n) -> ssl2_declared buf = Some n /\ 0 < n <= zlen buf.
+Proof. exact ssl2_parse_declared. Qed.
+
+Theorem C03_ssl2_self_delimiting : forall msg types buf x n sfx,
+  ssl2_parse msg types buf = Ok (x, n) -> ssl2_parse msg types (firstn (Z.to_nat n) buf ++ sfx) = Ok (x, n).
+Proof. exact ssl2_self_delimiting. Qed.
+
+Theorem C03_ssl2_roundtrip : forall msg types t m b sfx,
+  In t types -> 0 <= t < 256 -> msg t m = Ok (zlen m) -> ssl2_compose t m = Ok b ->
+  ssl2_parse msg types (b ++ sfx) = Ok ((t, m, nil), zlen b).
+Proof. exact ssl2_roundtrip. Qed.
